@@ -128,6 +128,7 @@ where
             budgets: std::cell::Cell::new((sh.step_budget, sh.step_budget)),
             last_steps: std::cell::Cell::new(0),
             caches: Vec::new(),
+            pending: RefCell::new(None),
         }
     };
 
